@@ -228,7 +228,7 @@ type info struct {
 func refEval(e *Expr, env *ref.Env) (ref.Value, error, bool) {
 	in := progs.NewRef()
 	v, err := in.Eval(e, env)
-	if err == ref.ErrBudget || in.Unspecified || in.SortTies {
+	if err == ref.ErrBudget || in.BudgetHit || in.Unspecified || in.SortTies {
 		return nil, nil, true
 	}
 	return v, err, false
